@@ -8,18 +8,18 @@
      fold_agrees_with_runtime      refuted by  E::C < 9   (folded, but no opcode: the emitter
                                                aborts on the variable version);
      fold_div0_is_runtime_fault    refuted by  false && (1/0 == 0), true ? 1 : 1/0
-                                               (rejected although never evaluated);
-     fold_never_crashes            refuted by  E::M / -1 with M = INT_MIN (the enum arms of
-                                               expr_div_constred still use the raw C division:
-                                               SIGFPE in the compiler, the VM wraps). *)
+                                               (rejected although never evaluated).
+   fold_never_crashes holds for ALL trees since /repo 355bd8f (the enum arms of
+   expr_div_constred / expr_mod_constred fold a / -1 as -a and a % -1 as 0 like the int arms;
+   before, E::M / -1 with M = INT_MIN was a SIGFPE inside the compiler and the statement was
+   refuted); enum_min_div_wraps_both_sides is the regression statement. *)
 From Coq Require Import ZArith Bool List Lia.
 From NV Require Import Arith.NumTy Arith.Bits Arith.IntOps Arith.FloatOps Arith.VMOps
   Arith.Promote Arith.RtEval Arith.Constred Arith.IntOpsProofs.
 Local Open Scope Z_scope.
 
 Local Opaque iadd isub imul ineg idiv imod iand ior ixor ibnot ishl ishr i2l l2i
-  fadd fsub fmul fdiv fneg fltb fgtb fleb fgeb feqb fneb fis_zero of_Z to_Z f2d d2f
-  cdiv cmod.
+  fadd fsub fmul fdiv fneg fltb fgtb fleb fgeb feqb fneb fis_zero of_Z to_Z f2d d2f.
 
 (* ---- typing inversions -------------------------------------------------------------- *)
 
@@ -70,9 +70,6 @@ Proof. intros. cbn [run]. now rewrite H0, (sel_conv_congr c a a' H). Qed.
 
 (* ---- one node over literal children --------------------------------------------------- *)
 
-Definition node_enum_div (o : binop) (ta tb : ty) : bool :=
-  match o with Div | Mod => ty_eqb TEnum ta || ty_eqb TEnum tb | _ => false end.
-
 Definition node_lazy (o : binop) (ta tb : ty) : bool :=
   match o with
   | And | Or => true
@@ -86,7 +83,7 @@ Lemma red_bin_sound : forall o la lb t,
   match red_bin o la lb with
   | LR l => run (EBin o (ELit la) (ELit lb)) = Val (lit_val l) /\ lit_ty l = t
   | LRej => run (EBin o (ELit la) (ELit lb)) = Fault DivisionByZero
-  | LSig => node_enum_div o (lit_ty la) (lit_ty lb) = true
+  | LSig => False
   | LKeep => node_lazy o (lit_ty la) (lit_ty lb) = true
   end.
 Proof.
@@ -96,12 +93,6 @@ Proof.
     cbn;
     try (split; reflexivity);
     try reflexivity;
-    try (match goal with |- context [cdiv ?n ?x ?y] =>
-           destruct (proj1 (raw_div_agrees n x y)) as [S|S]; rewrite S;
-           [cbn; reflexivity | idtac] end);
-    try (match goal with |- context [cmod ?n ?x ?y] =>
-           destruct (proj2 (raw_div_agrees n x y)) as [S|S]; rewrite S;
-           [cbn; reflexivity | idtac] end);
     try (match goal with |- context [idiv ?n ?x ?y] =>
            pose proof (idiv_not_sigfpe n x y) as NS; destruct (idiv n x y) end; cbn;
          try (split; reflexivity); try reflexivity; exfalso; apply NS; reflexivity);
@@ -149,7 +140,7 @@ Definition sound_for (e : expr) (t : ty) (r : fres) : Prop :=
       ty_of e' = Some t /\ emit_ok e' = true /\ run e' = run e /\
       (strict e = true -> exists l, e' = ELit l)
   | FReject => strict e = true -> run e = Fault DivisionByZero
-  | FCrash => no_enum_div e = true -> False
+  | FCrash => False
   end.
 
 Lemma run_lit_val : forall l, run (ELit l) = Val (lit_val l).
@@ -195,19 +186,6 @@ Proof. reflexivity. Qed.
 Lemma emit_ok_cond : forall c a b, emit_ok (ECond c a b) = emit_ok c && emit_ok a && emit_ok b.
 Proof. reflexivity. Qed.
 
-Lemma no_enum_div_bin_inv : forall o a b, no_enum_div (EBin o a b) = true ->
-  no_enum_div a = true /\ no_enum_div b = true /\
-  (forall ta tb, ty_of a = Some ta -> ty_of b = Some tb -> node_enum_div o ta tb = false).
-Proof.
-  intros o a b H. cbn [no_enum_div] in H.
-  apply andb_true_iff in H. destruct H as [H H3].
-  apply andb_true_iff in H. destruct H as [H1 H2].
-  apply negb_true_iff in H3.
-  split; [assumption|]. split; [assumption|].
-  intros ta tb Ta Tb. unfold ty_is in H3. rewrite Ta, Tb in H3.
-  destruct o; try reflexivity; cbn; assumption.
-Qed.
-
 Ltac split4 := split; [|split; [|split]].
 Ltac not_val := let w := fresh in let H := fresh in intros w H; discriminate H.
 
@@ -250,7 +228,7 @@ Proof.
         rewrite N2 in S. discriminate.
     + intro S. cbn [strict] in S. apply andb_true_iff in S. destruct S as [S _].
       cbn [run]. rewrite (IHa S). reflexivity.
-    + intro Hn. cbn [no_enum_div] in Hn. exact (IHa Hn).
+    + exact IHa.
   - (* binary *)
     cbn [emit_ok] in Hem. apply andb_true_iff in Hem. destruct Hem as [Hem Hsel].
     apply andb_true_iff in Hem. destruct Hem as [Hema Hemb].
@@ -290,10 +268,7 @@ Proof.
         -- rewrite <- Rn, N1. reflexivity.
         -- intros _. eexists; reflexivity.
       * intros _. rewrite <- Rn. exact N.
-      * intro Hn. destruct (no_enum_div_bin_inv _ _ _ Hn) as (_ & _ & Nz).
-        cbn [ty_of] in Tca, Tcb. rewrite Hta in Tca. rewrite Htb in Tcb.
-        inversion Tca as [E1]. inversion Tcb as [E2].
-        rewrite E1, E2 in N. rewrite (Nz ta tb Hta Htb) in N. discriminate N.
+      * exact N.
       * split; [assumption|]. split; [first [rewrite emit_ok_un, Sel' | rewrite emit_ok_bin, Sel']; reflexivity|]. split; [assumption|].
         intro S. destruct (strict_bin_inv _ _ _ S) as (_ & _ & _ & Lz).
         cbn [ty_of] in Tca, Tcb. rewrite Hta in Tca. rewrite Htb in Tcb.
@@ -305,15 +280,15 @@ Proof.
       destruct (La' Sa) as [l ->]. cbn [run] in Ra'.
       eapply run_bin_right_stops; [assumption | symmetry; exact Ra' | exact (IHb Sb) | not_val].
     + (* right crashed *)
-      intro Hn. destruct (no_enum_div_bin_inv _ _ _ Hn) as (_ & Nb & _). exact (IHb Nb).
+      exact IHb.
     + intro S. destruct (strict_bin_inv _ _ _ S) as (Sa & Sb & Ss & _).
       eapply run_bin_left_stops; [assumption | exact (IHa Sa) | not_val].
     + intro S. destruct (strict_bin_inv _ _ _ S) as (Sa & Sb & Ss & _).
       eapply run_bin_left_stops; [assumption | exact (IHa Sa) | not_val].
-    + intro Hn. destruct (no_enum_div_bin_inv _ _ _ Hn) as (_ & Nb & _). exact (IHb Nb).
-    + intro Hn. destruct (no_enum_div_bin_inv _ _ _ Hn) as (Na & _ & _). exact (IHa Na).
-    + intro Hn. destruct (no_enum_div_bin_inv _ _ _ Hn) as (Na & _ & _). exact (IHa Na).
-    + intro Hn. destruct (no_enum_div_bin_inv _ _ _ Hn) as (Na & _ & _). exact (IHa Na).
+    + exact IHb.
+    + exact IHa.
+    + exact IHa.
+    + exact IHa.
   - (* conversion *)
     cbn [emit_ok] in Hem. apply andb_true_iff in Hem. destruct Hem as [Hema Hsel].
     assert (Hta : exists ta, ty_of a = Some ta).
@@ -337,7 +312,7 @@ Proof.
       * rewrite <- Rn, N1. reflexivity.
       * intros _. eexists; reflexivity.
     + intro S. cbn [strict] in S. cbn [run]. rewrite (IHa S). reflexivity.
-    + intro Hn. cbn [no_enum_div] in Hn. exact (IHa Hn).
+    + exact IHa.
   - (* parentheses *)
     cbn [emit_ok] in Hem. cbn [ty_of] in Hty.
     specialize (IHa t Hty Hem).
@@ -348,7 +323,7 @@ Proof.
       all: (split4; [exact Ta' | exact Ea' | exact Ra' |
             intro S; cbn [strict] in S; destruct (La' S) as [l Hl]; discriminate Hl]).
     + intro S. cbn [strict] in S. cbn [run]. exact (IHa S).
-    + intro Hn. cbn [no_enum_div] in Hn. exact (IHa Hn).
+    + exact IHa.
   - (* ?: *)
     cbn [emit_ok] in Hem. apply andb_true_iff in Hem. destruct Hem as [Hem Hemb].
     apply andb_true_iff in Hem. destruct Hem as [Hemc Hema].
@@ -367,9 +342,7 @@ Proof.
     destruct (fold c) as [c'| |]; destruct (fold a) as [a'| |]; destruct (fold b) as [b'| |];
       cbn [fseq3 is_crash is_reject orb sound_for];
       try (intro S; cbn [strict] in S; discriminate S);
-      try (intro Hn; cbn [no_enum_div] in Hn; apply andb_true_iff in Hn; destruct Hn as [Hn Nb];
-           apply andb_true_iff in Hn; destruct Hn as [Nc Na];
-           first [exact (IHc Nc) | exact (IHa Na) | exact (IHb Nb)]).
+      try contradiction.
     destruct IHc as (Tc' & Ec' & Rc' & _). destruct IHa as (Ta' & Ea' & Ra' & _).
     destruct IHb as (Tb' & Eb' & Rb' & _).
     assert (Keep : sound_for (ECond c a b) t (FOk (ECond c' a' b'))).
@@ -418,23 +391,65 @@ Proof.
   split; [now rewrite <- R | now inversion T].
 Qed.
 
-(* the reducer does not trap on trees without an enum operand under / or % *)
-Theorem fold_never_crashes_partial : forall e t,
-  ty_of e = Some t -> emit_ok e = true -> no_enum_div e = true -> fold e <> FCrash.
+(* the reducer never traps, on any tree (typed or not): no arm of red_bin / red_un / red_conv
+   yields LSig — every division arm, the enum arms included, is idiv / imod *)
+Lemma red_bin_no_sig : forall o la lb, red_bin o la lb <> LSig.
 Proof.
-  intros e t Hty He Hn Hf.
-  pose proof (fold_sound e t Hty He) as S. rewrite Hf in S. cbn [sound_for] in S. exact (S Hn).
+  intros o la lb H.
+  destruct o, la, lb; cbn in H; try discriminate H;
+    try (match type of H with context [idiv ?n ?x ?y] =>
+           pose proof (idiv_not_sigfpe n x y) as NS; destruct (idiv n x y) end;
+         cbn in H; try discriminate H; apply NS; reflexivity);
+    try (match type of H with context [imod ?n ?x ?y] =>
+           pose proof (imod_not_sigfpe n x y) as NS; destruct (imod n x y) end;
+         cbn in H; try discriminate H; apply NS; reflexivity);
+    try (match type of H with context [if ?c then _ else _] => destruct c end; discriminate H).
+Qed.
+
+Lemma red_un_no_sig : forall o la, red_un o la <> LSig.
+Proof. intros o la H. destruct o, la; discriminate H. Qed.
+
+Lemma red_conv_no_sig : forall c la, red_conv c la <> LSig.
+Proof. intros c la H. destruct c, la; discriminate H. Qed.
+
+Lemma of_lres_crash : forall r keep, of_lres r keep = FCrash -> r = LSig.
+Proof. intros r keep H. destruct r; try discriminate H. reflexivity. Qed.
+
+Theorem fold_never_crashes : forall e, fold e <> FCrash.
+Proof.
+  induction e as [l | o a IHa | o a IHa b IHb | c a IHa | a IHa | c IHc a IHa b IHb];
+    cbn [fold].
+  - discriminate.
+  - destruct (fold a) as [a'| |]; [|discriminate | exact IHa].
+    unfold node_un. destruct a'; try discriminate.
+    intro H. exact (red_un_no_sig _ _ (of_lres_crash _ _ H)).
+  - destruct (fold a) as [a'| |]; [| |exfalso; apply IHa; reflexivity];
+      (destruct (fold b) as [b'| |]; [| |exfalso; apply IHb; reflexivity]); cbn [fseq];
+      try discriminate.
+    unfold node_bin. destruct a'; try discriminate. destruct b'; try discriminate.
+    intro H. exact (red_bin_no_sig _ _ _ (of_lres_crash _ _ H)).
+  - destruct (fold a) as [a'| |]; [|discriminate | exact IHa].
+    unfold node_conv. destruct a'; try discriminate.
+    intro H. exact (red_conv_no_sig _ _ (of_lres_crash _ _ H)).
+  - destruct (fold a) as [a'| |]; [|discriminate | exact IHa].
+    unfold node_sup. destruct a'; discriminate.
+  - destruct (fold c) as [c'| |]; [| |exfalso; apply IHc; reflexivity];
+      (destruct (fold a) as [a'| |]; [| |exfalso; apply IHa; reflexivity]);
+      (destruct (fold b) as [b'| |]; [| |exfalso; apply IHb; reflexivity]);
+      cbn [fseq3 is_crash orb]; try discriminate.
+    unfold node_cond. destruct c' as [lc| | | | |]; try discriminate.
+    destruct lc as [bc| | | | |]; try discriminate. destruct bc; discriminate.
 Qed.
 
 (* every tree without lazily evaluated nodes folds completely: to a literal of its type or to
    the division-by-zero rejection *)
 Theorem fold_total : forall e t,
-  ty_of e = Some t -> emit_ok e = true -> no_enum_div e = true -> strict e = true ->
+  ty_of e = Some t -> emit_ok e = true -> strict e = true ->
   fold e = FReject \/ exists l, fold e = FOk (ELit l) /\ lit_ty l = t.
 Proof.
-  intros e t Hty He Hn Hs.
+  intros e t Hty He Hs.
   pose proof (fold_sound e t Hty He) as S.
-  destruct (fold e) as [e'| |]; [|left; reflexivity | exfalso; exact (S Hn)].
+  destruct (fold e) as [e'| |]; [|left; reflexivity | exfalso; exact S].
   right. cbn [sound_for] in S. destruct S as (T & _ & _ & L).
   destruct (L Hs) as [l ->]. exists l. split; [reflexivity | now inversion T].
 Qed.
@@ -495,6 +510,7 @@ Definition ex_cond_div0 : expr :=
 Definition ex_int_min_div : expr := EBin Div (ELit (LInt (-2147483648))) (ELit (LInt (-1))).
 Definition ex_int_min_mod : expr := EBin Mod (ELit (LInt (-2147483648))) (ELit (LInt (-1))).
 Definition ex_enum_min_div : expr := EBin Div (ELit (LEnum (-2147483648))) (ELit (LInt (-1))).
+Definition ex_enum_min_mod : expr := EBin Mod (ELit (LEnum (-2147483648))) (ELit (LEnum (-1))).
 
 (* the full statement "fold e = literal v  ->  the VM computes v" is false: the comparison of
    an enum item with an int is folded, but the same comparison on variables has no opcode *)
@@ -537,14 +553,15 @@ Theorem cond_div0_is_rejected_but_runs :
   ty_of ex_cond_div0 = Some TInt /\ fold ex_cond_div0 = FReject /\ rt_eval ex_cond_div0 = Val (VInt 1).
 Proof. repeat split; vm_compute; reflexivity. Qed.
 
-(* "the reducer never traps" is false: an enumerator equal to INT_MIN divided by -1 still goes
-   through the raw C division inside the compiler, while the VM wraps *)
-Theorem fold_never_crashes_refuted :
-  exists e t v, ty_of e = Some t /\ emit_ok e = true /\ strict e = true /\
-    fold e = FCrash /\ rt_eval e = Val v.
-Proof.
-  exists ex_enum_min_div, TInt, (VInt (-2147483648)). repeat split; vm_compute; reflexivity.
-Qed.
+(* regression statement for /repo 355bd8f: an enumerator equal to INT_MIN divided by -1 (literal
+   or enumerator) is folded to the value the VM computes on variables; it used to be a SIGFPE
+   inside the compiler *)
+Theorem enum_min_div_wraps_both_sides :
+  ty_of ex_enum_min_div = Some TInt /\ emit_ok ex_enum_min_div = true /\
+  fold ex_enum_min_div = FOk (ELit (LInt (-2147483648))) /\
+  rt_eval ex_enum_min_div = Val (VInt (-2147483648)) /\
+  fold ex_enum_min_mod = FOk (ELit (LInt 0)).
+Proof. repeat split; vm_compute; reflexivity. Qed.
 
 (* ---- elaboration produces trees the theorems apply to ------------------------------------ *)
 
